@@ -203,13 +203,20 @@ def build_units(units, jobs):
     return res
 
 
+RUN_T0 = [None]  # wall-clock start of the run phase of the current check
+
+
 def run_unit_shard(u, shard, tier, seed, outdir, extra_args, deadline):
     out = os.path.join(outdir, '%s.%d.json' % (u.stem(), shard))
     if os.path.exists(out):
         os.remove(out)
     cmd = [u.binary(), '--tier', tier, '--seed', str(seed), '--out', out, '--shard', '%d/%d' % (shard, u.shards)] + u.args + list(extra_args)
     if deadline:
-        cmd += ['--deadline', str(deadline)]
+        # the deadline is GLOBAL for the check: a shard that starts late (more shards than cores) gets what is left of it, at
+        # least 5 s (it then reports its cells as skipped, exhaustive=false — a cap reported as a cap)
+        if RUN_T0[0] is not None:
+            deadline = max(5.0, deadline - (time.time() - RUN_T0[0]))
+        cmd += ['--deadline', '%.0f' % deadline]
     t0 = time.time()
     env = dict(os.environ)
     if u.run_env:
@@ -340,6 +347,7 @@ def run_property(prop, tier, seed, jobs, replay=None, units_filter=None, build_o
     tasks = []
     okunits = [u for (u, ok, log) in bres if ok]
     results = []
+    RUN_T0[0] = time.time()
     with cf.ThreadPoolExecutor(max_workers=jobs) as ex:
         futs = []
         for u in okunits:
